@@ -127,7 +127,7 @@ func c27Drain(c *engine.Ctx, p *engine.Prog) {
 		return ok && sfRootParam(d.ctx, se.X) == 0
 	}
 	errOK := func(d sfDS) bool {
-		return sfErrHandled(d.ctx.fn, d.site.Call, false) || c27ReturnsCall(d.ctx.fn, d.site.Call)
+		return sfErrHandled(d.ctx.fn, d.site.Call, false) || c27ReturnsCall(d.ctx.fn, d.site.Call) || sfErrPathChecked(d.ctx.fn, d.site.Call, false)
 	}
 	n := 0
 	ok := len(dels) >= 1 && len(sets) >= 1
